@@ -279,13 +279,15 @@ func c11Std(in map[string]any) map[string]any {
 	ctx := arraictx.InitRunCtx(context.Background())
 	got := make([][]string, n)
 	ok := parallel(n, 120*time.Second, func(g int) {
-		switch g % 3 {
-		case 0:
-			syntax.StdScope()
-		case 1:
-			syntax.SafeStdScope()
-		default:
-			syntax.FixFuncs()
+		for k := 0; k < 3; k++ { // all three lazies, each goroutine starting with a different one
+			switch (g + k) % 3 {
+			case 0:
+				syntax.FixFuncs()
+			case 1:
+				syntax.SafeStdScope()
+			default:
+				syntax.StdScope()
+			}
 		}
 		res := make([]string, len(exprs))
 		for i, s := range exprs {
@@ -336,7 +338,12 @@ func c11ImportCache(in map[string]any) map[string]any {
 		boom := errors.New("add failed")
 		add := func() (rel.Expr, error) {
 			atomic.AddInt64(&adds, 1)
-			time.Sleep(100 * time.Millisecond) // let the other callers reach the in-flight marker
+			// let the other callers reach the in-flight marker (longer where a missed overlap would hide the finding)
+			if mode == "err" {
+				time.Sleep(300 * time.Millisecond)
+			} else {
+				time.Sleep(100 * time.Millisecond)
+			}
 			switch mode {
 			case "ok":
 				return val, nil
